@@ -86,6 +86,8 @@ pub fn run_c05(out: &mut Out, rng: &mut Rng, tier: Tier) -> String {
     // beyond the size thresholds at which an implementation might switch algorithms
     single_ops_on::<Tok>(out, &LARGE);
     single_ops_on::<u32>(out, &LARGE[..2]);
+    single_ops_on::<Tok>(out, &VERY_LARGE);
+    single_ops_on::<u32>(out, &VERY_LARGE);
     let n = if tier == Tier::Quick { 400 } else { 4000 };
     compositions::<Tok>(out, rng, n, 9, 20);
     compositions::<()>(out, rng, n / 8, 5, 12);
